@@ -6,6 +6,7 @@ import Capella.Lemmas.GeomEdge
 import Capella.Lemmas.GeomTree
 import Capella.Lemmas.GeomCircle
 import Capella.Lemmas.GeomRobust
+import Capella.Lemmas.GeomEdgeEnd
 import Capella.Gen.GeomCmp
 
 /-!
@@ -330,6 +331,45 @@ theorem circle_snap_before_repair_not_equivariant :
   revert this
   decide +kernel
 
+/-! ## Edges attached to edges (`generic_factory` with an `Edge` as source or target)
+
+`EdgeInE` generalises `EdgeIn`: an end is a box with its floating labels or another edge with its points and visible labels.
+For an edge end the code does not call `snaptarget` (`isinstance(targetport, diagram.Box)`), takes `Edge.bounds` for the
+reference position of the stored bend points and for `route_tree`, and `Edge.center` / `Edge.vector_snap(center)` in
+`route_oblique` / `route_manhattan` (`Edge.center` needs `sqrt`: modelled for axis-parallel polylines, `degenerate` otherwise). -/
+
+/-- The extended model restricted to two boxes is the model all theorems above are about. -/
+theorem edge_route_with_ends_extends (dec : V2 → V2 → Bool) (i : EdgeIn) : edgeRouteE dec i.toE = edgeRoute dec i :=
+  edgeRouteE_boxes dec i
+
+/-- Position independence with edge ends: moving both ends (boxes with labels, edges with all their points and labels) by
+`v` moves every point of the built edge by exactly `v` — stored bend points of any length, the three default routes, all
+styles, error outcomes included, for every `dec`. -/
+theorem translate_equivariant_edge_route_with_ends (dec : V2 → V2 → Bool) (i : EdgeInE) (v : V2) :
+    edgeRouteE dec (i.translate v) = (edgeRouteE dec i).map (fun l => l.map (· + v)) :=
+  edgeRouteE_translate dec i v
+
+/-- … of `Edge.vector_snap` and `Edge.center` themselves. -/
+theorem translate_equivariant_edge_snap_center (pts : List V2) (p v : V2) :
+    edgeSnap (pts.map (· + v)) (p + v) = (edgeSnap pts p).map (· + v) ∧
+    edgeCenter (pts.map (· + v)) = (edgeCenter pts).map (· + v) :=
+  ⟨edgeSnap_translate pts p v, edgeCenter_translate pts v⟩
+
+/-- The end at an edge is left exactly as stored or routed (no snap), at the target … -/
+theorem edge_end_at_edge_untouched_target (dec : V2 → V2 → Bool) (i : EdgeInE) (tp : List V2) (tl : List Box) (l pts : List V2)
+    (ht : i.tgt = .edge tp tl) (h : edgeRouteE dec i = .ok l) (hp : edgePointsE i = .ok pts) : l.getLast? = pts.getLast? :=
+  edgeRouteE_edge_target_untouched dec i tp tl l pts ht h hp
+
+/-- … and at the source. -/
+theorem edge_end_at_edge_untouched_source (dec : V2 → V2 → Bool) (i : EdgeInE) (sp : List V2) (sl : List Box) (l pts : List V2)
+    (hs : i.src = .edge sp sl) (h : edgeRouteE dec i = .ok l) (hp : edgePointsE i = .ok pts) : l.head? = pts.head? :=
+  edgeRouteE_edge_source_untouched dec i sp sl l pts hs h hp
+
+/-- `Edge.center` of an axis-parallel polyline lies on the polyline (so the default route to an edge ends on that edge). -/
+theorem edge_center_on_edge (pts : List V2) (c : V2) (h : edgeCenter pts = some c) (h2 : 2 ≤ pts.length) :
+    onPolyline pts c ∨ c ∈ pts :=
+  edgeCenter_on_polyline pts c h h2
+
 /-! ## Float-boundary robustness
 
 The model is exact (`Rat`), the code is binary64: on the boundary of a comparison of computed coordinates a rounding error
@@ -438,6 +478,21 @@ theorem oblique_jump_at_containment (ε : Rat) (hε : 0 < ε) (h3 : ε ≠ 3) :
     snapObliqueLit ⟨⟨0, 0⟩, ⟨4, 2⟩, false⟩ ⟨1, 2 + ε⟩ ⟨1, 5⟩ = .ok ⟨7/4, 2⟩ :=
   ⟨snapObliqueLit_on_border, snapObliqueLit_jump_outside ε hε h3⟩
 
+/-- The full statement "the closest-side snap of a source outside the box ends on the side facing the source", which the
+code does not satisfy … -/
+def closest_snap_faces_source_full : Prop :=
+  ∀ (b : Box) (s q : V2), 0 < b.size.x → 0 < b.size.y → ¬ inBox b s → snapClosest b s = .ok q →
+    0 < (q - b.center).dot (s - b.center)
+
+/-- … declared jump `closest:diagonal-top-right` (known finding): a source exactly on the diagonal beyond the top-right
+corner is snapped to the bottom-left corner (`Box((0,0),(2,2)).vector_snap((3,-1)) = (0, 2)`); any source beside the
+diagonal is snapped to the near corner region, so this is a jump by the whole diagonal. -/
+theorem closest_snap_faces_source_full_fails : ¬ closest_snap_faces_source_full := by
+  intro h
+  have := h ⟨⟨0, 0⟩, ⟨2, 2⟩, false⟩ ⟨3, -1⟩ ⟨0, 2⟩ (by decide +kernel) (by decide +kernel) (by decide +kernel) (by decide +kernel)
+  revert this
+  decide +kernel
+
 /-! ## Non-vacuity -/
 
 -- the call that used to fail `assert len(intersections) < 2` (edge aimed at a corner)
@@ -516,5 +571,13 @@ example : snapOblique ⟨⟨0, 0⟩, ⟨4, 2⟩, false⟩ ⟨2, 1⟩ ⟨5, 5⟩ 
     distInf ⟨2, 1⟩ ⟨17/8, 1⟩ = 1/8 := by decide +kernel
 example : "manhattan:range-border" ∈ Capella.Gen.GeomCmp.declaredJumps ∧ "tree:direction-level" ∈ Capella.Gen.GeomCmp.declaredJumps ∧
     "oblique:containment" ∉ Capella.Gen.GeomCmp.declaredJumps := by decide +kernel
+
+-- edges attached to edges: the centre of an axis-parallel polyline; a polyline with an oblique segment is outside the model;
+-- stored bend points towards an edge keep their last point; the default Manhattan route ends in the other edge's centre
+example : edgeCenter [⟨0, 0⟩, ⟨4, 0⟩, ⟨4, 6⟩] = some ⟨4, 1⟩ ∧ edgeCenter [⟨0, 0⟩, ⟨3, 4⟩] = none := by decide +kernel
+example : edgeRouteE (fun _ _ => false) ⟨.box ⟨⟨0, 0⟩, ⟨10, 10⟩, false⟩ [], .edge [⟨30, 0⟩, ⟨30, 40⟩] [], ⟨1/2, 1/2⟩, [⟨0, 0⟩, ⟨20, 0⟩, ⟨25, 7⟩], .oblique⟩
+    = .ok [⟨10, 5⟩, ⟨25, 5⟩, ⟨30, 12⟩] := by decide +kernel
+example : edgeRouteE (fun _ _ => false) ⟨.box ⟨⟨0, 0⟩, ⟨10, 10⟩, false⟩ [], .edge [⟨30, 0⟩, ⟨30, 40⟩] [], ⟨1/2, 1/2⟩, [], .manhattan⟩
+    = .ok [⟨10, 5⟩, ⟨20, 5⟩, ⟨20, 20⟩, ⟨30, 20⟩] := by decide +kernel
 
 end Capella.Props.C17
